@@ -501,6 +501,8 @@ func runCase(in []string) (out []string) {
 			st = "err-" + m.Err
 		} else if !m.Complete {
 			st = "incomplete"
+		} else if m.Stray > 0 {
+			st = "stray-crlf-before-status-line"
 		}
 		fr := m.Framing
 		if fr == "" {
